@@ -31,6 +31,9 @@ func (c12) Gen(r *rand.Rand, tier string, run int) *core.Case {
 	if c.Net.ReadMode == "tiny" {
 		c.Net.ReadMode = "random"
 	}
+	// (the runs of this scenario pass some tens of thousands of yield
+	// points: one that passes millions has a goroutine spinning)
+	c.Sim.YieldCap = 8000000
 	c.Params["objects"] = 2 + r.IntN(2)
 	c.Params["focus"] = r.IntN(3)
 	c.Params["unset_level"] = r.IntN(2)
@@ -644,6 +647,21 @@ func c12frames(st *c12state, cat string, r *rand.Rand) [][]byte {
 		return out
 	}
 	return nil
+}
+
+// StepCapReached: the hostile client sends a few hundred small frames at
+// most and the runs of this scenario take a few thousand scheduling steps; one
+// that exhausts three hundred thousand has a goroutine of the server spinning.
+func (c12) StepCapReached(c *core.Case, env *core.Env, last zzsim.GInfo) *core.Violation {
+	if last.Node != "server" {
+		return nil
+	}
+	file := last.Site
+	if i := strings.LastIndex(file, ":"); i > 0 {
+		file = file[:i]
+	}
+	return &core.Violation{Class: "C12/server-spins@" + file,
+		Detail: fmt.Sprintf("the run used up its budget (%d scheduling steps, eight million yield points) with goroutine %s of the server still running at %s: the server spends unbounded processor time on a bounded number of small frames, and the object it belongs to answers nobody meanwhile", c.Sim.StepCap, last.Name, last.Site)}
 }
 
 func (c12) Check(c *core.Case, env *core.Env, res zzsim.Result, v *core.Verdict) {
